@@ -253,7 +253,25 @@ func (x *Exec) checkEvents(ctx string) {
 	evs := append([]Event{}, x.w.events...)
 	x.w.evMu.Unlock()
 	bal := map[string]int{}
-	for _, e := range evs {
+	keyOf := func(e *Event) (key string, d int) {
+		switch e.Kind {
+		case "AllocCreated":
+			return "alloc|" + e.Src, 1
+		case "AllocDeleted":
+			return "alloc|" + e.Src, -1
+		case "PermCreated":
+			return "perm|" + e.Src + "|" + e.Relay + "|" + e.Peer, 1
+		case "PermDeleted":
+			return "perm|" + e.Src + "|" + e.Relay + "|" + e.Peer, -1
+		case "ChanCreated":
+			return fmt.Sprintf("chan|%s|%s|%s|%d", e.Src, e.Relay, canonAddr(e.Peer), e.Channel), 1
+		case "ChanDeleted":
+			return fmt.Sprintf("chan|%s|%s|%s|%d", e.Src, e.Relay, canonAddr(e.Peer), e.Channel), -1
+		}
+
+		return "", 0
+	}
+	for i, e := range evs {
 		var key string
 		var d int
 		switch e.Kind {
@@ -273,6 +291,21 @@ func (x *Exec) checkEvents(ctx string) {
 			continue
 		}
 		bal[key] += d
+		if bal[key] == -1 {
+			// a created and a deleted callback issued by two goroutines at the same instant
+			// (an entry installed while its allocation is being closed) have no defined order:
+			// they pair up if the created callback follows within that instant
+			for j := i + 1; j < len(evs) && evs[j].Time.Equal(e.Time); j++ {
+				if k2, d2 := keyOf(&evs[j]); k2 == key && d2 == 1 {
+					key = ""
+
+					break
+				}
+			}
+			if key == "" {
+				continue
+			}
+		}
 		if bal[key] < 0 || bal[key] > 1 {
 			what := "deleted callback without (or twice per) created callback"
 			if bal[key] > 1 {
